@@ -9,12 +9,16 @@ import yaml
 SPELL = ["{:.1f}", "{:.2f}", "+{:.1f}", "{:.1f}e+0"]
 
 
-def expr_text(e) -> str:
+def expr_text(e, name: str = "t") -> str:
     if e[0] == "t":
-        return "t"
+        return name
     if e[0] == "c":
         return str(e[1])
-    return f"({expr_text(e[1])} {e[0]} {expr_text(e[2])})"
+    return f"({expr_text(e[1], name)} {e[0]} {expr_text(e[2], name)})"
+
+
+def vname(sw) -> str:
+    return sw.get("vname") or "t"
 
 
 def scalar(v: int, sp: int) -> str:
@@ -34,10 +38,10 @@ def meaning_node(n) -> Dict[str, Any]:
         out["parameters"] = params
     sw = n["sweep"]
     if sw["on"]:
-        variables = {"t": {"values": [int(x) if sw.get("ints") else float(x) for x in sw["vals"]]}}
+        variables = {vname(sw): {"values": [int(x) if sw.get("ints") else float(x) for x in sw["vals"]]}}
         if sw.get("ctx2"):
             variables.update({"u": {"from_context": "ku"}, "w": {"from_context": "kw"}})
-        out["derive"] = {"parameter_sweep": {"parameters": {"value": expr_text(sw["expr"])},
+        out["derive"] = {"parameter_sweep": {"parameters": {"value": expr_text(sw["expr"], vname(sw))},
                                              "variables": variables,
                                              "mode": sw["mode"], "broadcast": bool(sw["bc"]), "collection": sw["coll"]}}
     return out
@@ -69,14 +73,14 @@ def render(cfg: List[Dict[str, Any]]) -> str:
         sw = n["sweep"]
         if sw["on"]:
             vals = ", ".join((str(int(x)) if sw.get("ints") else f"{float(x):.1f}") for x in sw["vals"])
-            vtxt = f"t: {{values: [{vals}]}}"
+            vtxt = f"{vname(sw)}: {{values: [{vals}]}}"
             if sw.get("ctx2"):
                 extra = ["u: {from_context: ku}", "w: {from_context: kw}"]
                 if sw.get("vorder"):
                     extra.reverse()
                 vtxt = ", ".join(([extra[0], vtxt, extra[1]]) if sw.get("vorder") else ([vtxt] + extra))
             body += ["      derive:", "        parameter_sweep:",
-                     f"          parameters: {{value: \"{expr_text(sw['expr'])}\"}}",
+                     f"          parameters: {{value: \"{expr_text(sw['expr'], vname(sw))}\"}}",
                      f"          variables: {{{vtxt}}}",
                      f"          mode: {sw['mode']}", f"          broadcast: {'true' if sw['bc'] else 'false'}",
                      f"          collection: {sw['coll']}"]
